@@ -107,6 +107,35 @@ Definition e2e_ops (st : state) (next : N) (o : e2e_op) : list op * N :=
 Definition e2e_step (st : state) (next : N) (o : e2e_op) : state * N :=
   let '(os, n') := e2e_ops st next o in (run L st os, n').
 
+(* abortive clients (scenario op A<tok>: connect, send the id, close with a reset): connection ids in [ab]; the service call of
+   such a connection ends by itself as soon as it has started, whenever that is — after every scenario operation each abortive
+   connection that is in progress is finished (an ordinary XFinish), until none is *)
+Definition in_progress (st : state) (c : N) : bool :=
+  match holder c 0 (ws st) with Some _ => true | None => false end.
+
+Fixpoint abortive_ops (fuel : nat) (ab : list N) (st : state) (next : N) : list op :=
+  match fuel with
+  | O => []
+  | S f => match find (in_progress st) ab with
+           | Some c => let os := fst (e2e_ops st next (XFinish c)) in os ++ abortive_ops f ab (run L st os) next
+           | None => []
+           end
+  end.
+
+Definition e2e_ops_ab (ab : list N) (st : state) (next : N) (o : e2e_op) : list op * N :=
+  let '(os, n') := e2e_ops st next o in
+  (os ++ abortive_ops (S (length ab)) ab (run L st os) n', n').
+
+Definition e2e_step_ab (ab : list N) (st : state) (next : N) (o : e2e_op) : state * N :=
+  let '(os, n') := e2e_ops_ab ab st next o in (run L st os, n').
+
+(* a scenario: each operation together with the abortive connections known when it is issued *)
+Fixpoint e2e_script_ab (st : state) (next : N) (ops : list (list N * e2e_op)) : list op :=
+  match ops with
+  | [] => []
+  | (ab, o) :: t => let '(os, n') := e2e_ops_ab ab st next o in os ++ e2e_script_ab (run L st os) n' t
+  end.
+
 Fixpoint e2e_script (st : state) (next : N) (ops : list e2e_op) : list op :=
   match ops with
   | [] => []
